@@ -137,6 +137,7 @@ type verifSrvOpt struct {
 	blocklist   iplist.Ranger
 	waitToReply bool
 	store       bep44.Store
+	concreteID  bool // the node's own id is a fixed constant (entries with many table contacts)
 }
 
 type verifSrv struct {
@@ -154,6 +155,9 @@ func verifStartServer(o verifSrvOpt) *verifSrv {
 	// the node's own ID: arbitrary with its top bit set (so that the bucket of the all-zero ID, whose
 	// index is the number of leading zero bits of this ID, is decided; the XOR metric is translation invariant)
 	verifAssume(id[0]&0x80 != 0)
+	if o.concreteID {
+		id = krpc.ID{0x9a, 0x51, 0x07, 0xc3, 0x6e, 0x18, 0xf0, 0x22, 0x4b, 0xd9, 0x35, 0x86, 0x0c, 0x7f, 0xe1, 0x5a, 0xb4, 0x29, 0x93, 0x6d}
+	}
 	cfg := &ServerConfig{
 		NodeId:      id,
 		Conn:        sock,
@@ -302,5 +306,14 @@ func verifIDInBucket(root krpc.ID, p int) (id krpc.ID) {
 	for i := range id {
 		id[i] = root[i] ^ d[i]
 	}
+	return
+}
+
+// verifConcreteIDInBucket: a fixed ID sharing exactly p leading bits with root (distinct per salt).
+func verifConcreteIDInBucket(root krpc.ID, p int, salt byte) (id krpc.ID) {
+	id = root
+	id[p/8] ^= 0x80 >> uint(p%8)
+	id[19] ^= salt
+	id[18] ^= 0x5c
 	return
 }
